@@ -220,9 +220,10 @@ ValidWitnesses(w) == (good \cup {w}) \cap Followers
 P_ReportLeader(w, l, e) ==
   /\ P_Epochs
   /\ IF Stale(l, e) THEN obs'.err # "" /\ NoChange
-     ELSE /\ isr' = isr /\ exists' = exists
+     ELSE \* a report never adds to the in-sync set
+          /\ isr' \subseteq isr /\ exists' = exists
           \* no election: nothing moves
-          /\ lepoch' = lepoch => pepoch' = pepoch
+          /\ lepoch' = lepoch => (pepoch' = pepoch /\ isr' = isr)
           \* an election (a new leader epoch):
           /\ lepoch' # lepoch =>
                \* chosen from the current in-sync set, never the reported leader
@@ -237,8 +238,8 @@ P_ReportApply(i) ==
   LET r == pend[i] IN
   /\ P_Epochs
   /\ IF Stale(r.l, r.e) THEN NoChange
-     ELSE /\ isr' = isr /\ exists' = exists
-          /\ lepoch' = lepoch => pepoch' = pepoch
+     ELSE /\ isr' \subseteq isr /\ exists' = exists
+          /\ lepoch' = lepoch => (pepoch' = pepoch /\ isr' = isr)
           /\ lepoch' # lepoch =>
                /\ leader' \in isr /\ leader' # r.l
                /\ 2 * Cardinality(ValidWitnesses(r.w)) > Cardinality(Followers)
@@ -259,7 +260,8 @@ P_ExpandISR(r, l, e) ==
 
 \* timer expiry, controller change: the replicated partition state is untouched
 P_Quiet == NoChange
-P_RemoveStream == leader' = leader /\ lepoch' = lepoch /\ pepoch' = pepoch /\ isr' = isr
+\* a removed stream: nothing is demanded of what is left of it; a refused removal changes nothing
+P_RemoveStream == exists' => NoChange
 
 -----------------------------------------------------------------------------
 (* Mechanism invariants (implementation level) *)
